@@ -71,7 +71,11 @@ def run(rep):
     uniq = np.array([(1, 2), (1, 3), (2, 3), (2, 4), (3, 4)])
     for counts in itertools.product((1, 2), repeat=len(uniq)):
         NPu.ret = (uniq.copy(), np.array(counts))
-        out = np.asarray(f(np.array([(1, 2, 3)])))
+        try:
+            out = np.asarray(f(np.array([(1, 2, 3)])))
+        except Exception as e:  # pylint: disable=broad-except  (the body no longer fits np.unique's stub contract: E1 reports it)
+            ok2, why2 = False, f"raised {type(e).__name__}: {e} on np.unique's contracted result"
+            break
         exp = uniq[np.array(counts) == 1]
         if out.shape != exp.shape or not np.array_equal(out, exp):
             ok2, why2 = False, f"counts {counts}: returned {out.tolist()}, the edges that belong to one face only are {exp.tolist()}"
